@@ -1,0 +1,19 @@
+//go:build verif
+
+// Contracts for package vegeta (lib), read by /verif/govc. Comment-only file: with the build
+// tag off it does not exist, with the tag on it changes no behaviour.
+package vegeta
+
+// ---------------------------------------------------------------------------------- C01
+
+//@ func (ConstantPacer).Pace
+//@   property C01
+//@   returns (wait, stop)
+//@   requires elapsed >= 0
+//@   ensures [E1] (cp.Per == 0 || cp.Freq == 0) ==> wait == 0 && !stop
+//@   ensures [E2] cp.Per != 0 && cp.Freq != 0 && (cp.Per < 0 || cp.Freq < 0) ==> stop
+//@   ensures [E3] cp.Per > 0 && cp.Freq > 0 && !stop && wait > 0 ==> cp.Freq*elapsed < (hits+1)*cp.Per
+//@   ensures [E4] cp.Per > 0 && cp.Freq > 0 && !stop ==> hits*cp.Per <= cp.Freq*(elapsed + max(wait, 0))
+//@   ensures [E5] cp.Per > 0 && cp.Freq > 0 && !stop && wait > 0 ==>
+//@              cp.Freq*(elapsed+wait) <= (hits+1)*cp.Per + cp.Per + cp.Freq*(hits+1)
+//@   ensures [E6] cp.Per > 0 && cp.Freq > 0 && stop ==> hits == MaxUint64 || (hits+1)*cp.Per > cp.Freq*(MaxInt64 - cp.Per)
